@@ -598,6 +598,7 @@ func C04(run *Run) {
 					}
 				}
 			}
+			var v1def *CheckEv
 			for _, eng := range []string{"server", "v1:default", "v1:weight2", "v1:recursive"} {
 				ev := &CheckEv{Eng: eng, O: q.O, R: q.R, U: q.U, Ctx: q.Ctx, Ctxt: ct}
 				v.Base.RunCheck(ctx, ev, ts, mg)
@@ -605,8 +606,25 @@ func C04(run *Run) {
 					skippedInvalid++ // contextual tuple refused by validation: not a C04 case
 					continue
 				}
+				if eng == "v1:default" {
+					v1def = ev
+				}
 				rec.Add(ev)
 				run.Evals++
+			}
+			// the weighted-graph engine keeps contextual tuples in its own index next to the datastore
+			if mg != nil && v1def != nil {
+				for _, eng := range []string{"v2:default", "server:v2"} {
+					ev := &V2Ev{CheckEv: CheckEv{Eng: eng, O: q.O, R: q.R, U: q.U, Ctx: q.Ctx, Ctxt: ct}}
+					if eng == "server:v2" {
+						v.Get("server:v2").RunCheck(ctx, &ev.CheckEv, ts, mg)
+					} else {
+						v.Base.RunCheck(ctx, &ev.CheckEv, ts, mg)
+					}
+					fillV2(ev, v1def, cs, ts, q)
+					rec.Add(ev)
+					run.Evals++
+				}
 			}
 			if i%4 == 0 {
 				for _, eng := range loEngines {
